@@ -115,6 +115,11 @@ def run(ctx):
     from .C09 import slot_table_boundary
     _slot_map(ctx, "C14.D2")
     slot_table_boundary(ctx, "C14.D2")
+    # what a proxy can advertise for its peers is what the broker view and the coordinator hand it: shared with C02
+    from ..engine import AliasCtx
+    from . import C02 as _c02
+    ctx.rule("C14.D4", "shared with C02: the peer part of the metadata reaches the proxy complete (one entry per peer proxy with all its masters' slots, no element-dropping step in the broker view or the coordinator's maps)")
+    _c02.run(AliasCtx(ctx, "C14.D4", only={"C02.D1"}))
     _generators(ctx)
 
 
